@@ -156,8 +156,13 @@ func callArgs(in ssa.Instruction) []ssa.Value {
 	if cc.IsInvoke() {
 		return cc.Args
 	}
-	if f := cc.StaticCallee(); f != nil && f.Signature.Recv() != nil && len(cc.Args) > 0 {
-		return cc.Args[1:]
+	if f := cc.StaticCallee(); f != nil {
+		if f.Signature.Recv() != nil && len(cc.Args) > 0 {
+			return bargs(f, cc.Args[1:], false)
+		}
+		if _, isClosure := cc.Value.(*ssa.MakeClosure); !isClosure {
+			return bargs(f, cc.Args, true)
+		}
 	}
 	return cc.Args
 }
